@@ -110,7 +110,7 @@ fn coverage_keys(scn: &Scenario, cov: &mut BTreeMap<String, u64>) {
                     TSpec::Group { .. } => "group".to_string(),
                     TSpec::MutRefs { kind, .. } => format!("mutrefs-{:?}", kind),
                     TSpec::Slice { kind, boxed, poison, .. } => format!("{}slice-{}-{:?}", if *poison { "poisonable-" } else { "" }, if *boxed { "box" } else { "vec" }, kind),
-                    TSpec::OnData { kind, poison, from, .. } => format!("{}{}-{:?}", if *poison { "poisonable-" } else { "" }, if *from { "from" } else if *kind == CollKind::Ref { "new" } else { "new_ref" }, kind),
+                    TSpec::OnData { kind, poison, from, unchecked, .. } => format!("{}{}-{:?}", if *poison { "poisonable-" } else { "" }, if *unchecked { "new_unchecked" } else if *from { "from" } else if *kind == CollKind::Ref { "new" } else { "new_ref" }, kind),
                 };
                 *cov.entry(format!("{}/{:?}", kind, a.api)).or_insert(0) += 1;
                 *cov.entry(format!("depth{}", scn.world.depth(t))).or_insert(0) += 1;
@@ -128,7 +128,7 @@ fn run_batch(prop: &str, seed: u64, start: u64, count: u64, replay_dir: &str, pr
     let mut fps: HashSet<u64> = HashSet::new();
     let mut dumpf = dump.map(|p| std::io::BufWriter::new(std::fs::File::create(p).expect("dump file")));
     if prop == "C07" && start == 0 {
-        for (ty, got, exp) in typeprobe::owned_lockable_verdicts() {
+        for (ty, got, exp, detail) in typeprobe::all_verdicts() {
             *out.coverage.entry("static_ownedlockable_verdicts".into()).or_insert(0) += 1;
             if got != exp && exp {
                 // an owning type that is not accepted is a usability matter, not what C07 forbids
@@ -138,7 +138,6 @@ fn run_batch(prop: &str, seed: u64, start: u64, count: u64, replay_dir: &str, pr
             if got != exp {
                 let path = format!("{}/C07-static-{}.replay.json", replay_dir, ty.bytes().fold(0u64, |h, b| h.wrapping_mul(131).wrapping_add(b as u64)));
                 let _ = std::fs::create_dir_all(replay_dir);
-                let detail = format!("the compiler {} `{}` as OwnedLockable (input of the constructors that skip the duplicate check), expected it to be {}", if got { "accepts" } else { "rejects" }, ty, if exp { "accepted" } else { "rejected" });
                 std::fs::write(&path, serde_json::json!({"static_probe": true, "property": "C07", "type": ty, "got": got, "expected": exp, "detail": detail}).to_string()).expect("write replay");
                 out.violations.push(Viol { property: "C07".into(), clause: "StaticOwnedLockable".into(), run_seed: 0, index: 0, detail, replay: path });
             }
@@ -331,14 +330,19 @@ fn main() {
                 None => println!("{}", s),
             }
         }
+        Some("static") => {
+            for (what, got, exp, _) in typeprobe::all_verdicts() {
+                println!("{} {:5} (expected {:5}) {}", if got == exp { "  " } else { "!!" }, got, exp, what);
+            }
+        }
         Some("replay") => {
             let path = args.get(2).expect("replay file");
             let raw: serde_json::Value = serde_json::from_str(&std::fs::read_to_string(path).expect("read replay")).expect("parse replay");
             if raw.get("static_probe").is_some() {
                 let ty = raw["type"].as_str().unwrap_or("");
-                for (t, got, exp) in typeprobe::owned_lockable_verdicts() {
+                for (t, got, exp, detail) in typeprobe::all_verdicts() {
                     if t == ty && got != exp {
-                        println!("static probe: `{}` OwnedLockable = {}, expected {}", t, got, exp);
+                        println!("static probe: {}", detail);
                         println!("VIOLATION property=C07 replay={}", path);
                         std::process::exit(1);
                     }
